@@ -137,6 +137,37 @@ theorem C04_ifaceRemove_frame (w : World) (p : Nat) (i : Int) :
         simp [setStrHdr, allocArr, strHdr, List.getD_eq_getElem?_getD, Ne.symm hq]
   · exact ⟨fun _ _ _ => rfl, fun _ _ => rfl, rfl, rfl⟩
 
+/-- interface{} `Remove(i)` leaves the receiver — which IS the returned stream
+    (`C04_ifaceRemove_returns_receiver`) — holding the sequence without its `i`-th element (any other index,
+    negative ones included: unchanged).  `_partial`: stated under the explicit hypotheses that the receiver's
+    header lies within its live backing array and `len ≤ cap` (true of every header the modelled operations
+    build, but not part of `Wf`). -/
+theorem C04_ifaceRemove_content_partial (w : World) (p : Nat) (i : Int)
+    (hp : p < w.strs.length) (ha : (w.strHdr p).arr < w.arrs.length)
+    (hb : (w.strHdr p).off + (w.strHdr p).len ≤ (w.arrAt (w.strHdr p).arr).length)
+    (hc : (w.strHdr p).len ≤ (w.strHdr p).cap) :
+    (w.strRemoveI p i).1.strContent p = Spec.removeAt (w.strContent p) i := by
+  have hcl : (w.strContent p).length = (w.strHdr p).len := by
+    simp [strContent, sliceContent, List.length_take, List.length_drop]; omega
+  unfold strRemoveI Spec.removeAt
+  simp only [hcl]
+  split
+  · rename_i hr
+    have hi : i.toNat < (w.strHdr p).len := by omega
+    have htl : ((w.sliceContent (w.strHdr p)).drop (i.toNat + 1)).length = (w.strHdr p).len - (i.toNat + 1) := by
+      have := hcl; simp only [strContent] at this; simp [this]
+    have hfit : i.toNat + ((w.sliceContent (w.strHdr p)).drop (i.toNat + 1)).length ≤ (w.strHdr p).cap := by omega
+    simp only [appendSlice, hfit, if_true]
+    have := shift_list (w.arrAt (w.strHdr p).arr) (w.strHdr p).off (w.strHdr p).len i.toNat hi hb
+    simp only at this
+    simp only [strContent, sliceContent, strHdr, setStrHdr, writeArr, arrAt, List.getD_eq_getElem?_getD,
+      List.getElem?_set, hp, if_true, Option.getD_some] at this ⊢
+    have ha' := ha
+    simp only [strHdr, List.getD_eq_getElem?_getD] at ha'
+    rw [if_pos ha']
+    exact this
+  · rfl
+
 /-! ### results: the elements the sequence definition prescribes -/
 
 theorem C04_newStream_content (w : World) (l : List Int) (tail : Nat) :
@@ -264,6 +295,10 @@ example : (Op.s1 "s3" "s0" .reverse).isMutator true = false := rfl
 /-- the hypothesis of `C04_len_agrees_partial` holds e.g. for `s0` above -/
 example : ((run false State.init demoOps).w.strHdr 0).off + ((run false State.init demoOps).w.strHdr 0).len
     ≤ ((run false State.init demoOps).w.arrAt ((run false State.init demoOps).w.strHdr 0).arr).length := by decide
+/-- the hypotheses of `C04_ifaceRemove_content_partial` hold e.g. for `s0` of the demo state -/
+example : let w := (run true State.init demoOps).w
+    0 < w.strs.length ∧ (w.strHdr 0).arr < w.arrs.length ∧
+    (w.strHdr 0).off + (w.strHdr 0).len ≤ (w.arrAt (w.strHdr 0).arr).length ∧ (w.strHdr 0).len ≤ (w.strHdr 0).cap := by decide
 /-- the interface{} `Remove` really is a mutator in the model: `[1,2,3].Remove(0)` rewrites the receiver's
     storage (`a0` becomes `[2,3,3]`) — which is why it is excluded from `C04_step_persistent`. -/
 example : content (run true State.init [.arr "a0" 3 [1, 2, 3], .sfrom "s0" "a0", .s1 "s1" "s0" (.remove 0)]).w
